@@ -881,7 +881,8 @@ func (c *converter) popEndLabel() string {
 }
 
 func (c *converter) nextEndLabel() string {
-	c.endLabels = append(c.endLabels, fmt.Sprintf(":_e%d", len(c.endLabels)))
+	// Number the end label like the loop's head label to keep it unique (labels numbered by nesting depth repeat for sequential loops).
+	c.endLabels = append(c.endLabels, fmt.Sprintf(":_e%d", c.forCounter-1))
 	return c.mustCurrentEndLabel()
 }
 
